@@ -645,7 +645,8 @@ class ExecuteStep(BaseStep):
                 if len(inputs_map[tag]) == len(input_ports):
                     inputs = inputs_map.pop(tag)
                     # Set status to fireable
-                    await self._set_status(Status.FIREABLE)
+                    if not self.terminated:
+                        await self._set_status(Status.FIREABLE)
                     # Run job
                     unfinished.add(
                         asyncio.create_task(
